@@ -34,7 +34,7 @@ ID = "C06"
 READY = True
 LEAN_TARGETS = ["NauyacaVerif.Props.C06"]
 THEOREMS = [f"NauyacaVerif.C06.{t}" for t in
-            ("chunk_tie", "chunk_pos", "recvSize_tie", "sendall_tie", "respond_writes", "sendAll_complete", "flush_preserves", "drain_complete",
+            ("chunk_tie", "chunk_pos", "recvSize_tie", "sendall_tie", "writesOf_flatten", "connWrites_flatten", "respond_writes", "sendAll_complete", "flush_preserves", "drain_complete",
              "wrapper_delivers", "wrapper_write_complete", "pump_delivers", "stdlib_delivers", "backends_identical", "sizes_faithful",
              "old_wrapper_truncates")]
 EXTRACT = ["recvSizes", "wrapperUsesSendall", "defaultMaxFileSize"]
@@ -55,6 +55,13 @@ ASSUMPTIONS = [
     "over memory BIOs the reader cannot exert back-pressure on the server (the fake transport buffers everything); back-pressure exists only in the loopback family (shrunk SO_SNDBUF / SO_RCVBUF), and is not modelled",
     "static files: compared with what StaticFileHandler.handle RETURNED (Path.read_text translates CR LF and CR to LF before the handler returns; that step precedes C06)",
 ]
+
+def extract_extra():
+    """Gen/Tls.lean (shared with C20) also records how _send_response cuts a body into writes."""
+    from . import c20
+
+    return c20.extract_extra()
+
 
 SMALL = 70000          # up to this many units the model renders the body itself
 MIB = 1 << 20
@@ -200,11 +207,13 @@ def gen_dims(rng: random.Random, n_units: int, quick: bool):
 
 
 def sizes(rng: random.Random, n: int, big: list[int]):
-    """boundary sizes first, then sizes near the boundaries, then log-uniform random up to 2 MiB; `big` leads in thorough."""
-    out = list(big) + BOUNDARY[:]
+    """random sizes: exactly at / near the record and buffer boundaries, tiny, and log-uniform up to 2 MiB"""
+    out = list(big)
     while len(out) < n:
         r = rng.random()
-        if r < 0.3:
+        if r < 0.12:
+            out.append(rng.choice([16384, 65536]) + rng.randint(-2, 2))
+        elif r < 0.3:
             out.append(max(0, rng.choice([8192, 16384, 32768, 65536, 131072, 262144, 3 * 65536]) + rng.randint(-40, 40)))
         elif r < 0.45:
             out.append(rng.randint(0, 300))
@@ -233,26 +242,45 @@ class Pump(Family):
     def __init__(self):
         self._memo: dict = {}
 
+    # deterministic enumerations, divided among the shards with self.share (never cut with [:n])
+    DENSE = [(sz, kind, reader) for sz in BOUNDARY for kind in ("bytes", "str", "static") for reader in ("fast", "slow", "bursty")]
+    BIG = [(10 * MIB, "bytes", "fast"), (100 * MIB - 1, "bytes", "bursty"), (10 * MIB + 1, "str", "slow"), (100 * MIB, "static", "fast"),
+           (10 * MIB - 1, "static", "bursty"), (100 * MIB - 1, "str", "fast"), (24 * MIB + 7, "bytes", "slow"), (3 * MIB + 1, "str", "bursty"),
+           (64 * MIB, "bytes", "fast"), (100 * MIB - 1, "static", "bursty"), (7 * MIB, "str", "fast"), (2 * MIB + 1, "static", "slow"),
+           (10 * MIB, "str", "bursty"), (50 * MIB + 3, "bytes", "bursty"), (100 * MIB, "bytes", "fast"), (5 * MIB, "static", "fast")]
+
+    def _case(self, rng: random.Random, sz: int, kind: str | None = None, reader: str | None = None):
+        d = gen_dims(rng, sz, True)
+        kind = kind or rng.choice(["bytes", "str", "str", "static"])
+        src = "static" if kind == "static" else rng.choice(["sync", "sync", "async"])
+        if kind == "static":
+            d["btype"], d["status"] = "str", 20
+            d["fill"] = rng.choice(FILLS_S[:4])   # files must be valid UTF-8 text
+            d["meta"] = rng.choice(["f.gmi", "f.txt", "f.bin"])   # file name; the handler derives the MIME type
+        elif kind != d["btype"]:
+            d["btype"] = kind
+            d["fill"] = rng.choice(FILLS_B if kind == "bytes" else FILLS_S)
+        if sz > 4 * MIB and d["btype"] == "str" and d["fill"] != "ascii":
+            d["fill"] = "ascii" if sz > 40 * MIB else rng.choice(["ascii", "mixed"])
+        tlsmax = rng.choice([4, 4, 3])
+        d.update({"src": src, "reader": reader or rng.choice(["fast", "slow", "bursty"]), "tlsmax": tlsmax, "path": rng.choice([4, 5, 6, 13, 14]),
+                  "cuts": rng.choice([0, 0, 1, 3]), "coalesce": tlsmax == 4 and rng.random() < 0.25})
+        return d
+
     def gen(self, rng: random.Random, n: int):
-        thorough = n >= 200
-        big: list[int] = []
+        # per-shard n: quick 2000/8 = 250 (375 in the failing-input search), thorough 40000/16 = 2500
+        thorough = n >= 1000
+        count = 0
         if thorough:
-            # a few samples up to max_file_size per shard (16 shards): 10 MiB, 100 MiB - 1, 100 MiB and random in between
-            big = [rng.choice([10 * MIB, 10 * MIB + 1, 100 * MIB - 1, 100 * MIB, rng.randint(2 * MIB, 100 * MIB), rng.randint(2 * MIB, 24 * MIB)])]
-        for i, sz in enumerate(sizes(rng, n, big)):
-            d = gen_dims(rng, sz, not thorough)
-            if sz > 4 * MIB and d["btype"] == "str" and d["fill"] != "ascii":
-                d["fill"] = "ascii" if sz > 40 * MIB else rng.choice(["ascii", "mixed"])
-            src = rng.choice(["sync", "sync", "async", "static"])
-            if src == "static":
-                d["btype"], d["status"] = "str", 20
-                d["fill"] = rng.choice(FILLS_S[:4])   # files must be valid UTF-8 text without NUL-free restriction
-                d["meta"] = rng.choice(["f.gmi", "f.txt", "f.bin"])   # file name; the handler derives the MIME type
-            reader = rng.choice(["fast", "slow", "bursty"])
-            tlsmax = rng.choice([4, 4, 3])
-            d.update({"src": src, "reader": reader, "tlsmax": tlsmax, "path": rng.choice([4, 5, 6, 13, 14]),
-                      "cuts": rng.choice([0, 0, 1, 3]), "coalesce": tlsmax == 4 and rng.random() < 0.25})
-            yield d
+            # samples up to max_file_size (thorough only, few): one per shard, incl. 10 MiB and 100 MiB - 1
+            for sz, kind, reader in self.share(self.BIG):
+                yield self._case(rng, sz, kind, reader)
+                count += 1
+        for sz, kind, reader in self.share(self.DENSE):
+            yield self._case(rng, sz, kind, reader)
+            count += 1
+        for sz in sizes(rng, max(0, n - count), []):
+            yield self._case(rng, sz)
 
     # -- implementation ----------------------------------------------------------------------
     def impl(self, case):
